@@ -957,3 +957,22 @@ package frugal
 //@ func lib.FStandardClient.Call(client, fctx, method, args, result)
 //@   locals ctx, cancelFn, payload, err, resultTransport
 //@   modifies *
+
+// ---- NATS client transport life cycle (C15) ----------------------------------------------------------------------
+// Open/Close are not meant to race with each other (no mutex in the type); the contracts are sequential.
+// Close of an open transport always unsubscribes - whatever the connection status - and on success leaves
+// the transport closed with exactly one close cause published; Close of a closed transport is a no-op.
+//@ func lib.fNatsTransport.Close(f)
+//@   ensures old(f.sub) == nil ==> result == nil && ncalls("nats.go.Subscription.Unsubscribe") == 0 && ncalls("lib.fBaseTransport.Close") == 0
+//@   ensures old(f.sub) != nil ==> ncalls("nats.go.Subscription.Unsubscribe") == 1
+//@   ensures old(f.sub) != nil && result == nil ==> f.sub == nil && ncalls("lib.fBaseTransport.Close") == 1
+//@   ensures result != nil ==> f.sub == old(f.sub) && ncalls("lib.fBaseTransport.Close") == 0
+//@   modifies *
+//@ func lib.fNatsTransport.Open(f)
+//@   ensures old(f.sub) != nil ==> result != nil && f.sub == old(f.sub)
+//@   ensures result == nil ==> f.sub != nil && ncalls("nats.go.Conn.Subscribe") == 1 && ncalls("lib.fBaseTransport.Open") == 1
+//@   ensures result != nil ==> f.sub == old(f.sub) && ncalls("lib.fBaseTransport.Open") == 0
+//@   modifies *
+//@ func lib.fNatsTransport.IsOpen(f)
+//@   ensures f.sub == nil ==> !result
+//@   ensures result ==> f.sub != nil
